@@ -166,6 +166,11 @@ func (u *Unmarshaler) fillSlice(fieldType reflect.Type, value reflect.Value, map
 	dereffedBaseType := Deref(baseType)
 	dereffedBaseKind := dereffedBaseType.Kind()
 	refValue := reflect.ValueOf(mapValue)
+	// 嵌套切片的元素、map 的值可能是标量、null 或 map，而不是切片
+	if refValue.Kind() != reflect.Slice {
+		return errTypeMismatch
+	}
+
 	if refValue.IsNil() {
 		return nil
 	}
@@ -186,8 +191,13 @@ func (u *Unmarshaler) fillSlice(fieldType reflect.Type, value reflect.Value, map
 		valid = true
 		switch dereffedBaseKind {
 		case reflect.Struct:
+			ithMap, ok := ithValue.(map[string]any)
+			if !ok {
+				return errTypeMismatch
+			}
+
 			target := reflect.New(dereffedBaseType)
-			if err := u.Unmarshal(ithValue.(map[string]any), target.Interface()); err != nil {
+			if err := u.Unmarshal(ithMap, target.Interface()); err != nil {
 				return err
 			}
 
@@ -246,6 +256,11 @@ func (u *Unmarshaler) fillSliceFromString(fieldType reflect.Type, value reflect.
 
 func (u *Unmarshaler) fillSliceValue(slice reflect.Value, index int,
 	baseKind reflect.Kind, value any) error {
+	// 字符串形式的切片（如 "[null]"）可能带有 null 元素
+	if value == nil {
+		return errTypeMismatch
+	}
+
 	ithVal := slice.Index(index)
 	switch v := value.(type) {
 	case fmt.Stringer:
@@ -253,13 +268,19 @@ func (u *Unmarshaler) fillSliceValue(slice reflect.Value, index int,
 	case string:
 		return setValue(baseKind, ithVal, v)
 	case map[string]any:
+		if ithVal.Kind() != reflect.Map {
+			return errTypeMismatch
+		}
+
 		return u.fillMap(ithVal.Type(), ithVal, value)
 	default:
 		// don't need to consider the difference between int, int8, int16, int32, int64,
 		// uint, uint8, uint16, uint32, uint64, because they're handled as json.Number.
 		if ithVal.Kind() == reflect.Ptr {
 			baseType := Deref(ithVal.Type())
-			if baseType.Kind() != reflect.TypeOf(value).Kind() {
+			// Kind 相同还不够：[]any 与 []int 同为 Slice，但不能赋值
+			if baseType.Kind() != reflect.TypeOf(value).Kind() ||
+				!reflect.TypeOf(value).AssignableTo(baseType) {
 				return errTypeMismatch
 			}
 
@@ -269,7 +290,8 @@ func (u *Unmarshaler) fillSliceValue(slice reflect.Value, index int,
 			return nil
 		}
 
-		if ithVal.Kind() != reflect.TypeOf(value).Kind() {
+		if ithVal.Kind() != reflect.TypeOf(value).Kind() ||
+			!reflect.TypeOf(value).AssignableTo(ithVal.Type()) {
 			return errTypeMismatch
 		}
 
@@ -515,7 +537,13 @@ func (u *Unmarshaler) processFieldNotFromString(fieldType reflect.Type, value re
 	case valueKind == reflect.String && typeKind == reflect.Slice:
 		return u.fillSliceFromString(fieldType, value, mapValue)
 	case valueKind == reflect.String && derefedFieldType == durationType:
-		return fillDurationValue(fieldType.Kind(), value, mapValue.(string))
+		// json.Number 的 Kind 也是 String，但它不是时长字符串
+		dur, ok := mapValue.(string)
+		if !ok {
+			return newTypeMismatchError(fullName)
+		}
+
+		return fillDurationValue(fieldType.Kind(), value, dur)
 	default:
 		return u.processFieldPrimitive(fieldType, value, mapValue, opts, fullName)
 	}
